@@ -181,13 +181,17 @@ def run_c18(rep, tier, seed):
                         if e:
                             kind = "update-invalid:" + ("bounds" if "outside" in e else ("connectivity" if "connected" in e else "partition"))
                             viol(kind, e, dict(board=[h, w], cfg=cfg["args"], cur=snap, update=u, result=nxt))
-                        # aliasing: mutating the result must not reach the source
-                        for blk in nxt:
-                            blk.append(("poison",))
-                        if cur != snap:
-                            viol("update-aliases-input", "the new value shares a block list with the old one",
-                                 dict(board=[h, w], cfg=cfg["args"], cur=snap, update=u))
-                            cur = copy.deepcopy(snap)
+                        # history: a further update applied to the NEW value must leave both the old and
+                        # the new value as they were (sharing structure is fine, mutating it is not)
+                        if n_updates % 7 == 0:
+                            snap2 = copy.deepcopy(nxt)
+                            c2 = b.candidates(nxt)
+                            if c2:
+                                b.copy_with_update(nxt, c2[rnd.randrange(len(c2))])
+                            if cur != snap or nxt != snap2:
+                                viol("later-update-mutates-earlier-value", "a second update changed a previously produced value",
+                                     dict(board=[h, w], cfg=cfg["args"], cur=snap, update=u))
+                                cur = copy.deepcopy(snap)
                 except Exception as ex:
                     viol("exception", "%s: %s" % (type(ex).__name__, ex), dict(board=[h, w], cfg=cfg["args"], cur=snap))
                 finally:
@@ -361,9 +365,17 @@ def run_c19_builders(rep, tier, seed):
                                     viol("array-symmetry-broken", "non-default cells are no longer point symmetric", dict(cur=snap, update=u, result=nxt, **opts))
                                 if disallow and not is_move and not _adjacent_free(h, w, nxt, default, adj4):
                                     viol("array-adjacency-broken", "a value-setting update puts two non-default cells next to each other", dict(cur=snap, update=u, result=nxt, **opts))
-                                nxt[0][0] = "poison"
-                                if cur != snap:
-                                    viol("array-aliases-previous", "the new problem shares a row with the previous one", dict(cur=snap, update=u, **opts))
+                                # history: a further update applied to the new problem must leave the earlier ones untouched
+                                snap2 = copy.deepcopy(nxt)
+                                srandom.use_deterministic_prng(True, 12345)
+                                try:
+                                    c2 = ab.candidates(nxt)
+                                finally:
+                                    srandom.use_deterministic_prng(False)
+                                if c2:
+                                    ab.copy_with_update(nxt, c2[len(c2) // 2])
+                                if cur != snap or nxt != snap2:
+                                    viol("array-later-update-mutates-earlier-problem", "a second update changed a previously produced problem", dict(cur=snap, update=u, **opts))
                                     cur = copy.deepcopy(snap)
                             rep.case(("array", json.dumps(opts), json.dumps(snap)), sample=dict(opts=opts, cur=snap, updates=len(cands)) if rnd.random() < 0.001 else None)
     # nested patterns: with_update touches exactly the addressed builder
